@@ -15,20 +15,27 @@
 (* leaf per pattern (entries beyond LeafCap get mask 0; collecting a match *)
 (* in the last bit never terminates).  Variant "code": cache keyed by      *)
 (* KIND, each rule once, leaves chained when full.                         *)
+(* Rules can be added between runs (AddRule: the processor is stopped, so  *)
+(* the step is atomic): the code forgets every cached pre-check.  Variant  *)
+(* "stale-cache" forgets only the entries whose key is one of the new      *)
+(* rule's kind patterns - a wildcard pattern leaves negative entries       *)
+(* behind and a later event of such a kind is skipped.                     *)
 (***************************************************************************)
 EXTENDS RuleMatch, TLC
 
 CONSTANTS RuleSets,   \* set of rule sequences (the universe of rule sets)
           Events,     \* set of events [name, kind, state]
           Scopes,     \* set of cascade scopes
-          MaxHist, LeafCap, Variant
+          MaxHist, LeafCap, Variant,
+          Extra,      \* rules which may be added later (between runs)
+          MaxAdds, MaxRules
 
-VARIABLES rules, scope, cache, n, last
-vars == <<rules, scope, cache, n, last>>
+VARIABLES rules, scope, cache, n, last, adds
+vars == <<rules, scope, cache, n, last, adds>>
 
 NoOutcome == [e |-> <<>>, fired |-> <<>>, skipped |-> FALSE, hang |-> FALSE, valid |-> FALSE]
 
-Init == /\ rules \in RuleSets /\ scope \in Scopes /\ cache = <<>> /\ n = 0 /\ last = NoOutcome
+Init == /\ rules \in RuleSets /\ scope \in Scopes /\ cache = <<>> /\ n = 0 /\ last = NoOutcome /\ adds = 0
 
 (* ---- the index ------------------------------------------------------------------------- *)
 \* kind-only pre-check: some pattern of some rule matches the kind
@@ -81,9 +88,20 @@ AddEvent(e) ==
      /\ cache' = [x \in DOMAIN cache \cup {key} |-> IF x = key THEN trig ELSE cache[x]]
      /\ last' = IF ~ trig THEN [e |-> e, fired |-> <<>>, skipped |-> TRUE, hang |-> FALSE, valid |-> TRUE]
                 ELSE [e |-> e, fired |-> Executed(e), skipped |-> FALSE, hang |-> Hangs(e), valid |-> TRUE]
-  /\ UNCHANGED <<rules, scope>>
+  /\ UNCHANGED <<rules, scope, adds>>
 
-Next == \E e \in Events : AddEvent(e)
+(* ---- AddRule (between two runs of the processor) ------------------------------------------ *)
+NameAt(j) == IF j = 1 THEN "r1" ELSE IF j = 2 THEN "r2" ELSE IF j = 3 THEN "r3" ELSE "r4"
+AddRule(r) ==
+  /\ adds < MaxAdds /\ Len(rules) < MaxRules /\ adds' = adds + 1
+  /\ rules' = Append(rules, [r EXCEPT !.name = NameAt(Len(rules) + 1)])
+  /\ cache' = IF Variant = "stale-cache"
+                THEN [x \in DOMAIN cache \ {r.kinds[p] : p \in 1..Len(r.kinds)} |-> cache[x]]
+                ELSE <<>>
+  /\ last' = NoOutcome
+  /\ UNCHANGED <<scope, n>>
+
+Next == (\E e \in Events : AddEvent(e)) \/ (\E r \in Extra : AddRule(r))
 Spec == Init /\ [][Next]_vars
 
 (* ---- C01 ---------------------------------------------------------------------------------------- *)
